@@ -50,6 +50,9 @@ def run(check: Check) -> None:
             if okh is not True:
                 sfs = " ".join(ch_c14.FLAG_ALPHA[k] for k in ks)
                 bad.append((sfs, "parser-history", {"history": [f1, f2, w, list(ks)]}))
+    for s_, msg in ch_c14.parser_copies_problems():
+        n += 1
+        bad.append((s_, "parser-copy", {"message": msg}))
     # native fuzz companion (ground): character-level mutations of grammar-derived formulas under rotating flag subsets; every string
     # gets a verdict (formula / parsing error) within 10 s - a parse that does not come back is neither
     import signal
@@ -83,6 +86,9 @@ def run(check: Check) -> None:
     check.info["fuzz_strings"] = nf
     check.obligation("streams/native cross-validation", "ground", n - len(bad))
     for s, c, extra in bad[:20]:
+        if c == "parser-copy":
+            check.violation(f"parser-copy::{s}", extra["message"], {"kind": "c14_parser_copies"})
+            continue
         if c == "parser-history":
             f1, f2, w, ks = extra["history"]
             call = {"args": [f1, f2, w] + ks, "kwargs": {}}
